@@ -21,6 +21,8 @@ mod p11;
 mod p12;
 #[cfg(feature = "crypto")]
 mod p13;
+#[cfg(feature = "crypto")]
+mod p14;
 mod zlib;
 mod zmodel;
 mod p17;
@@ -127,6 +129,8 @@ fn main() {
         "C12" => p12::run(&mut c),
         #[cfg(feature = "crypto")]
         "C13" => p13::run(&mut c),
+        #[cfg(feature = "crypto")]
+        "C14" => p14::run(&mut c),
         "C17" => p17::run(&mut c),
         "C18" => p18::run(&mut c),
         "C19" => p19::run(&mut c),
